@@ -5,6 +5,7 @@ import Driver.Http
 import Driver.Timer
 import Driver.Locks
 import Driver.Reader
+import Driver.Conc
 /-!
 The model driver: one request per line on stdin, one reply per line on stdout.
 `<family> <op> <args…>`; payload strings are hex encoded.  Unknown or malformed requests answer
@@ -20,6 +21,8 @@ def dispatch (line : String) : String :=
   | "timer" :: rest => Driver.Timer.handle rest
   | "locks" :: rest => Driver.Locks.handle rest
   | "reader" :: rest => Driver.Reader.handle rest
+  | "queue" :: rest => Driver.Conc.handleQueue rest
+  | "route" :: rest => Driver.Conc.handleRoute rest
   | ["ping"] => "pong"
   | _ => "bad-op"
 
